@@ -67,10 +67,14 @@ Twins == {[kind |-> x.kind, pos |-> x.pos, links |-> x.links, opt |-> x.opt, fro
              x \in {y \in Cases : y.from = <<1, 1>> /\ y.to = <<31, 2>> /\ (Len(y.links) + y.links[1].len) % 7 = 0}
                    \cup {y \in CycleThin : y.from[1] = 1 /\ (y.links[2].speed + 2 * y.links[3].speed + y.links[1].len) % 11 = 0},
              uv \in {<<1, 2>>, <<2, 1>>, <<2, 3>>, <<4, 3>>, <<1, 4>>}}
+(* slow networks: every speed divided by eight (the harness does it, exactly), so that the fastest link covers less than one
+   unit of length per unit of time - the routes are the same routes *)
+Slow == {[kind |-> x.kind, pos |-> x.pos, links |-> x.links, opt |-> x.opt, from |-> x.from, to |-> x.to, slow |-> 3] :
+            x \in {y \in CycleThin : (y.links[1].len + y.links[2].speed + y.links[4].speed) % 5 = 0} \cup {y \in ChordCases : y.from # y.to}}
 GenInit == /\ net = 0 /\ opt = 0 /\ s = 0 /\ t = 0 /\ open = {} /\ closed = {} /\ g = 0 /\ phase = "gen"
            /\ c \in {x \in Cases : x.from # x.to /\ NearestUnique(x.pos, x.links, x.from) /\ NearestUnique(x.pos, x.links, x.to)
                                    /\ (x.from[1] * 3 + x.to[1] * 5 + x.from[2]) % 4 = 0} \cup CycleThin \cup {x \in ChordCases : x.from # x.to} \cup WithPre
-                   \cup {x \in Twins : TwinOK(x.pos, x.links, x.twin[1], x.twin[2])}
+                   \cup {x \in Twins : TwinOK(x.pos, x.links, x.twin[1], x.twin[2])} \cup Slow
            /\ PrintT(ToJson(c))
 GenSpec == GenInit /\ [][UNCHANGED <<vars, c>>]_<<vars, c>>
 =============================================================================
